@@ -73,3 +73,14 @@ def warm_metrics():
             distance.DISTANCES[name](x.copy(), y.copy())
         except Exception:  # a broken metric is the checks' business, not warm-up's
             pass
+    # the few (metric, dtype) pairs that the non-float64 worlds use
+    for name in DTYPE_METRICS:
+        for dt in DTYPES:
+            try:
+                distance.DISTANCES[name](np.array([1, 2, 0, 3], dtype=dt), np.array([0, 2, 3, 1], dtype=dt))
+            except Exception:
+                pass
+
+
+DTYPE_METRICS = ("manhattan", "chebyshev", "euclidean", "squared_euclidean", "log_squared_euclidean", "lorentzian")
+DTYPES = ("float32", "int64", "uint8")
